@@ -211,6 +211,29 @@ def c_inverse(case, ctx):
                "globalToLocal(a.inv(), identity) vs a")
 
 
+    # the same object after its pose has been set anew (any of the public setters): inv() is the inverse of the pose
+    # the object has NOW
+    if case.get("b") is not None:
+        b = np.asarray(case["b"], dtype=float)
+        how = case.get("how", "sTM")
+        ctx.label("inv() again after " + how)
+        B = O.pose_from_taa(b)
+        if how == "setQuat":
+            sut(ta.setQuat, np.asarray(O.rotvec_to_quat(b[3:]), dtype=float))
+            B = O.rp(B[:3, :3], A[:3, 3])
+        elif how == "sTM":
+            sut(ta.sTM, np.ascontiguousarray(B).copy())
+        elif how == "sTAA":
+            sut(ta.sTAA, b.copy())
+        else:
+            for k in range(6):
+                sut(ta.__setitem__, k, float(b[k]))
+        s2 = _scale(B, O.inv(B))
+        _close(_gtm(ta, "a after " + how), B, s2, "a.gTM() after %s vs the pose set" % how)
+        _close(_gtm(sut(ta.inv), "a.inv() after " + how), O.inv(B), s2,
+               "a.inv() after a was given a new pose through %s vs the inverse of the new pose" % how)
+
+
 def c_assoc(case, ctx):
     a, b, c = case["a"], case["b"], case["c"]
     A, B, C = (O.pose_from_taa(x) for x in (a, b, c))
@@ -341,9 +364,17 @@ def c_ctor_forms(case, ctx):
     ]
     mats = []
     for name, make, want in forms:
-        M = _gtm(make(), name)
+        t1 = make()
+        M = _gtm(t1, name)
         _close(M, want, s, "%s vs the described pose" % name)
         mats.append((name, M, want is T or want is Te))
+        if name != "tm(list6)":
+            # the object just built is put to use (moved in place through the public setters); the same description
+            # given to the constructor again still describes the same pose
+            for k, dv in enumerate((0.25, -0.5, 1.5, 0.125, -0.25, 0.0625)):
+                sut(t1.__setitem__, k, float(np.asarray(t1[k]).reshape(-1)[0]) + dv)
+            _close(_gtm(make(), name + " (second time)"), want, s,
+                   "%s built again after the first instance was edited in place vs the described pose" % name)
     # "produce the same transform": pairwise through the first full-pose form
     ref = mats[0][1]
     for name, M, full in mats:
@@ -458,7 +489,9 @@ def _fd(**kw):
 
 CLAUSES = [
     Clause("compose_is_matrix_product", c_compose, _fd(a=_poses(), b=_poses(), fa=_FORM, fb=_FORM), 1500, 48000),
-    Clause("inv_is_group_inverse", c_inverse, _fd(a=_poses(), fa=_FORM), 1500, 48000),
+    Clause("inv_is_group_inverse", c_inverse,
+           _fd(a=_poses(), fa=_FORM, b=st.one_of(st.none(), _poses()),
+               how=st.sampled_from(["setQuat", "sTM", "sTAA", "setitem"])), 1500, 48000),
     Clause("composition_associative", c_assoc,
            _fd(a=_poses(), b=_poses(), c=_poses(), fa=_FORM, fb=_FORM, fc=_FORM), 1500, 48000),
     Clause("local_global_mutual_inverse", c_frames, _fd(r=_poses(), x=_poses(), fr=_FORM, fx=_FORM), 1500, 48000),
